@@ -13,6 +13,9 @@ CHECKS = {
  'C16': dict(cat='exploration', tech='history checker: operation histories on the unmodified hash map against a reference dictionary; value read-back of generated scope/shadowing units',
              text='map.c is linked into a monitor replaying put/overwrite/get/clear histories with keys colliding in the low hash bits; generated units with up to 5000 (thorough 50000) identifiers, 200-deep nesting and shadowing across name spaces are compiled and every use is compared with the value the C scope rules select; string literal objects are decoded from the IL.',
              note='Capacities restricted to those the compiler uses; expected values come from the generator\'s own scope model.', ref='4/C16'),
+ 'C19': dict(cat='exploration', tech='sanitizer-instrumented fuzzing (ASan+UBSan build, valgrind sample) with mutation, truncation, odd-shape and deep-nesting workloads; strace read/write fault injection',
+             text='Runs the ASan+UBSan build of the current tree on tens of thousands (thorough: millions) of mutated, truncated, odd-shaped, deeply nested and very long inputs plus option sets and I/O faults; any signal, sanitizer report, assertion text, status outside {0,1,2}, CPU-budget overrun (re-run with 5x before a verdict) or runaway output is a violation, de-duplicated by failure site and reduced by token-level delta debugging.',
+             note='memory-safe = no ASan/UBSan/memcheck report on the executions driven; termination is decided as bounded progress under a CPU budget proportional to input size; malloc failure is not injected.', ref='4/C19'),
  'C03': dict(cat='exploration', tech='online validator (re-implemented QBE parse/typecheck/SSA rules) over every accepted output; strace write-fault injection',
              text='Every module printed with exit status 0 (suite, corpus, generated, odd-shaped and mutated inputs, cproc\'s own sources; three targets) is parsed and checked by an independent IL validator; output faults are injected at the k-th write.',
              note='Trusted: vf.ilcheck (silent on the 159 stored .qbe files and the self-compiled IL); data sizes vs C objects are judged by C06/C07.', ref='4/C03'),
